@@ -664,6 +664,10 @@ class EvaluationProblem(BaseProblem):
             isinstance(function, MDOLinearFunction)
             and not round_ints
             and is_function_input_normalized
+            # The unnormalization rounds the integer variables:
+            # the normalized linear function would be evaluated at another point
+            # than the one under which its value is stored in the database.
+            and not ds.has_integer_variables
         ):
             expects_normalized_inputs = True
             function = function.normalize(self.design_space)
